@@ -124,7 +124,9 @@ def _parse_terse(out):
         fails = re.findall(r'(?m)^Failed Checks: (.*)$', p)
         locs = re.findall(r'(?m)^\s*File: "([^"]+)", line (\d+), in (\S+)', p)
         timeout = 'timed out' in p.lower() or 'timeout' in p.lower()
-        oom = 'out of memory' in p.lower() or 'killed' in p.lower()
+        oom = 'out of memory' in p.lower() or 'killed' in p.lower() or 'CBMC failed' in p
+        if (oom or timeout) and not fails:
+            status = 'unknown'   # resource cap: undecided, never an alarm
         unwind = any('unwinding assertion' in f for f in fails)
         res[name] = dict(status=status, failed=failed, total=total, covers=covers, time=float(mt.group(1)) if mt else 0.0,
                          failed_checks=fails, locs=locs, timeout=timeout, oom=oom, unwind=unwind, text=p[-3000:])
